@@ -5,7 +5,6 @@ CONSTANTS MaxRuns = 3
  Versions = {1, 2}
  PreChoices = {0, 1, 2}
  SplitChoices = {FALSE, TRUE}
- DumpWanted <- DumpQuick
 INIT Init
 NEXT Next
 VIEW View
